@@ -297,7 +297,8 @@ func c15AskHist(c *core.Ctx, o *c15Out, k c15Case, calls []c15Call, dls []c15Dl,
 	}
 	toks := c15HistTokens(calls, dls)
 	stall := "-"
-	if k.Kind == "stall" && !k.UDP {
+	if k.Kind == "stall" && !k.UDP && !(k.Ender == "sclose-"+k.StallSide && k.EnderSess%mathMax(1, k.Sessions) == 0) {
+		// (once the stalled connection itself has been closed at the stalled side, the loop reads again)
 		stall = k.StallSide
 	}
 	reply := c.Model.Ask("c15-hist %s %d %d %d %s %s %s", c15Transport(k.UDP), c15BoundMs, c15PropMs, c15EpsMs, f, stall, strings.Join(toks, " "))
@@ -740,6 +741,31 @@ func c15RunMixed(c *core.Ctx, k c15Case) *c15Out {
 		}
 		o.violate(fmt.Sprintf("C15/hang/%s-%s-end-after-%s-%s", map[string]string{"R": "read", "W": "write"}[wk.what], rel, k.Ender, tr),
 			"%s at the %s end of connection %d had not returned %d ms after %s; goroutines of the project: %s", wk.what, wk.end.side, wk.end.sess, c15BoundMs+c15PropMs, k.Ender, c15SigSummary())
+	}
+	// closing the stalled connection itself frees the event loop (deliverSegmentToSession gives up when
+	// the session is closed): a peer's close of a sibling connection must be noticed again
+	shared := ns > 1 && cls[0].LocalAddr().String() == cls[1].LocalAddr().String() // connections 0 and 1 use one underlay
+	if k.Kind == "stall" {
+		o.hist[fmt.Sprintf("stall_shares_underlay_%v", shared)] = ""
+	}
+	if k.Kind == "stall" && !k.UDP && k.Ender == "sclose-"+k.StallSide && es == 0 && shared && len(o.finds) == 0 {
+		other, oconns := "c", cls
+		if k.StallSide == "c" {
+			other, oconns = "s", svs
+		}
+		waitChans(c15Closers(r, oconns[1], other, 1, 1), c15BoundMs*time.Millisecond)
+		chs, idx = nil, nil
+		for i, wk := range workers {
+			if wk.end.sess == 1 && wk.end.side == k.StallSide {
+				chs = append(chs, wk.done)
+				idx = append(idx, i)
+			}
+		}
+		for _, j := range waitChans(chs, (c15BoundMs+c15PropMs)*time.Millisecond) {
+			wk := workers[idx[j]]
+			o.violate("C15/hang/loop-stays-parked-after-stalled-session-closed-tcp", "%s at the %s end of connection 1 had not returned %d ms after the peer closed that connection, although the stalled connection 0 had been closed at the %s end before; goroutines of the project: %s",
+				wk.what, wk.end.side, c15BoundMs+c15PropMs, k.StallSide, c15SigSummary())
+		}
 	}
 	// once the case has failed, later waits are cut short: the verdict is in, the rest is clean-up
 	bound := func() time.Duration {
@@ -1222,13 +1248,17 @@ func c15GenMixed(r *rand.Rand, thorough bool) c15Case {
 }
 
 func c15GenStall(r *rand.Rand) c15Case {
-	k := c15Case{Kind: "stall", Seed: r.Int63(), UDP: r.Intn(2) == 0, Multiplex: r.Intn(4), Sessions: 1 + r.Intn(3)}
+	k := c15Case{Kind: "stall", Seed: r.Int63(), UDP: r.Intn(2) == 0, Multiplex: []int{0, 1, 3, 20}[r.Intn(4)], Sessions: 1 + r.Intn(3)}
 	k.StallSide = []string{"c", "s"}[r.Intn(2)]
 	k.Writes, k.Size = 5200+r.Intn(600), 1+r.Intn(200)
 	k.Ender = c15Enders[r.Intn(len(c15Enders))]
 	k.EnderSess = 0
 	if r.Intn(3) == 0 {
 		k.EnderSess = r.Intn(k.Sessions)
+	}
+	if r.Intn(4) == 0 {
+		// the stalled application closes its connection: the event loop must come back
+		k.Ender, k.EnderSess, k.Sessions, k.Multiplex = "sclose-"+k.StallSide, 0, 2+r.Intn(2), 20
 	}
 	k.Closers = 1 + r.Intn(3)
 	k.TrafficMs = 1500 + r.Intn(1000)
